@@ -13,6 +13,7 @@ structure Extends (last last' : Stream) (r : Rec) (add : Nat) : Prop where
   recs : last'.allRecs = last.allRecs ++ [r]
   ne : ∀ g ∈ last'.groups.toList, g.records.size ≠ 0
   gcount : last'.groups.count = last'.groups.toList.length
+  gb : GroupsOk last'.groups.toList
   count : last'.recordCount = last.recordCount + 1
   ls : last'.indexListSize = last.indexListSize + add
   flags : last'.flags = last.flags
@@ -35,7 +36,7 @@ theorem extends_abs {last last' : Stream} (hs : StreamInv last) {u c : Nat}
   · unfold absStream at hb ⊢
     simp only at hb
     rw [he.flags, he.padding, hb]
-  · refine ⟨he.ne, ?_, ?_, ?_, he.gcount⟩
+  · refine ⟨he.ne, ?_, ?_, ?_, he.gcount, he.gb⟩
     · rw [he.recs]
       apply recsOk_append _ _ _ _ hs.recs
       · simp only [q1]; omega
@@ -59,7 +60,7 @@ theorem extends_room {last : Stream} (hs : StreamInv last) (hroom : last.hasRoom
     have hnew : (last.groups.root.modifyRightmost fun g => { g with records := g.records.push r }).toList
         = gfront ++ [{ g with records := g.records.push r }] := by
       rw [Tree.toList_modifyRightmost, hg, Spec.modifyLast_append_singleton]
-    refine ⟨?_, ?_, ?_, rfl, rfl, rfl, rfl, rfl, rfl, rfl, rfl⟩
+    refine ⟨?_, ?_, ?_, ?_, rfl, rfl, rfl, rfl, rfl, rfl, rfl, rfl⟩
     · unfold Stream.allRecs
       simp only [hnew, hg, List.flatMap_append, List.flatMap_cons, List.flatMap_nil, List.append_nil,
         Array.toList_push, List.append_assoc]
@@ -72,11 +73,18 @@ theorem extends_room {last : Stream} (hs : StreamInv last) (hroom : last.hasRoom
     · unfold CTree.toList
       simp only [hnew]
       rw [hs.gcount]; unfold CTree.toList; rw [hg]; simp
+    · unfold CTree.toList
+      simp only [hnew]
+      have hb := hs.gbases
+      unfold CTree.toList at hb; rw [hg] at hb
+      exact groupsOk_replace_last hb rfl rfl rfl
 
-theorem extends_newgroup {last : Stream} (hs : StreamInv last) (r : Rec) (add : Nat) (g : Group) (hg : g.records = #[r]) :
+theorem extends_newgroup {last : Stream} (hs : StreamInv last) (r : Rec) (add : Nat) (g : Group) (hg : g.records = #[r])
+    (hb1 : g.uncompressedBase = last.lastSums.uncompressedSum) (hb2 : g.compressedBase = vliCeil4 last.lastSums.unpaddedSum)
+    (hb3 : g.numberBase = last.recordCount + 1) :
     Extends last { last with groups := last.groups.append g, recordCount := last.recordCount + 1,
                              indexListSize := last.indexListSize + add } r add := by
-  refine ⟨?_, ?_, ?_, rfl, rfl, rfl, rfl, rfl, rfl, rfl, rfl⟩
+  refine ⟨?_, ?_, ?_, ?_, rfl, rfl, rfl, rfl, rfl, rfl, rfl, rfl⟩
   · unfold Stream.allRecs
     have := CTree.toList_append last.groups g
     unfold CTree.toList at this
@@ -87,6 +95,12 @@ theorem extends_newgroup {last : Stream} (hs : StreamInv last) (r : Rec) (add : 
     · exact hs.groupsNe g' hg'
     · simp only [List.mem_singleton] at hg'; subst hg'; simp [hg]
   · simp only [CTree.count_append, CTree.toList_append, hs.gcount]; simp
+  · simp only [CTree.toList_append]
+    obtain ⟨q1, q2⟩ := lastSums_of_stream last hs
+    apply groupsOk_snoc hs.gbases g
+    · rw [hb1, q2]; rfl
+    · rw [hb2, q1]; rfl
+    · rw [hb3, hs.count]; rfl
 
 theorem spec_append_of_check {sp : SpecIndex} {u c : Nat} (h : Spec.appendCheck sp u c = none) :
     Spec.append sp u c = (.ok, Spec.modifyLast (fun s => { s with blocks := s.blocks ++ [⟨u, c⟩] }) sp) := by
@@ -151,7 +165,7 @@ theorem append_refines {i : Index} (hi : Inv i) (u c : Nat) :
           (vliSize u + vliSize c)
           { uncompressedBase := last.lastSums.uncompressedSum, compressedBase := vliCeil4 last.lastSums.unpaddedSum,
             numberBase := last.recordCount + 1, allocated := i.prealloc,
-            records := #[⟨last.lastSums.uncompressedSum + c, vliCeil4 last.lastSums.unpaddedSum + u⟩] } rfl
+            records := #[⟨last.lastSums.uncompressedSum + c, vliCeil4 last.lastSums.unpaddedSum + u⟩] } rfl rfl rfl rfl
         exact ⟨by rw [spec_append_of_check hchk], append_success hi h hchk (setLast_toList h _) rfl he rfl rfl rfl rfl rfl⟩
 
 end Impl
